@@ -102,7 +102,8 @@ claim("C15", "E4+E3",
       "compile path outside the feature-file parser, whose loops are proved by C13/G1) is listed with the reason it terminates and a re-checked "
       "class (index arithmetic / shrinking call / cursor API / generated plist reader): a new `while`/`loop` that follows references from the "
       "input is a violation until audited; (X11) a wide integer parsed from the input (u32/u64/usize `str::parse`, `from_str_radix`) never sizes a loop or an allocation "
-      "(a u16 bounds the expansion of a glyph range by its type). It quantifies over all inputs because it is a rule over code shape. It does NOT decide time or memory "
+      "(a u16 bounds the expansion of a glyph range by its type); (X12) source loaders, which interpret the whole input on the calling thread before any job exists, "
+      "run under catch_unwind (found: loader panics ended the process with status 101; repaired). It quantifies over all inputs because it is a rule over code shape. It does NOT decide time or memory "
       "bounds, nor that the audited loop reasons are true (they were read, not proved).",
       "Trusted: rustc MIR, call graph with class-hierarchy expansion for workspace traits (std-trait callbacks not expanded in the census), "
       "tables/e4_recursion.json (class + reason per cycle, confirmed by reading), std::panic::catch_unwind semantics. A stack overflow is not a "
